@@ -88,6 +88,28 @@ package builder
 //@             as(bc.request.CurrentState.WorkerState, *remoteworker.CurrentState_Executing_).Executing.ActionDigest == executionRequest.ActionDigest
 //@   ensures failed-start-changes-nothing: r0 != nil ==> unchanged()
 
+// The goroutine that runs an action reports its completion exactly once, with a
+// send that cannot be skipped (the completion is never dropped because the
+// buffer of progress updates happens to be full), for the action it was
+// started for, and only then closes the channel.
+//@ func (*BuildClient).startExecution$1
+//@   props C08
+//@   at call Execute#1 ghostset sentbyexecutor[nil] = sent(updates)
+//@   at call builtin.close#1 assert completion-is-sent-exactly-once-before-the-channel-is-closed: arg0 == updates && sent(updates) == sentbyexecutor(nil) + 1
+//@   ensures the-channel-is-closed-when-the-goroutine-ends: closed(updates)
+
+// The worker thread only ends once a Run() that said termination is allowed has
+// returned after shutdown began: every return follows such a Run, so an error
+// during shutdown (or a shutdown during the back-off after an error) cannot
+// make the thread walk away from an action the scheduler believes is running.
+//@ ghost map lastrunallowedtermination(ref) int zero
+//@ ghost map sentbyexecutor(ref) int zero
+//@ func LaunchWorkerThread$1
+//@   props C08
+//@   trustcall Run -- object invariant of BuildClient: established by NewBuildClient and preserved by every Run (inv, proved); the thread is the only user of its client
+//@   at call Run#1 ghostset lastrunallowedtermination[nil] = ite(r0, 1, 0)
+//@   ensures the-thread-ends-only-after-a-run-that-allowed-termination: lastrunallowedtermination(nil) == 1
+
 //@ func (*BuildClient).consumeExecutionUpdatesNonBlocking
 //@   props C08
 //@   requires bcInv(bc) && bc.request.CurrentState != nil
